@@ -178,7 +178,9 @@ def gen_config(rng, sp, profile):
     # sometimes the runner sets exactly one option and nothing else (also an explicit `false`): "is anything set at run time?"
     # short cuts must not mistake that for "nothing set"
     single = None
-    if getattr(sp, "budget_scenario", False) and action == "bench" and rng.random() < 0.6:
+    if getattr(sp, "wide_counts", False) and action in ("bench", "test") and rng.random() < 0.7:
+        single = "ss_wide"
+    elif getattr(sp, "budget_scenario", False) and action == "bench" and rng.random() < 0.6:
         single = "sk"
     elif rng.random() < profile.get("p_single_runner_opt", 0.0):
         single = rng.choice(["sc", "ss", "th", "c", "xt", "mt", "sk", "sk", "sk"] if profile.get("time_opts") else ["sc", "ss", "th", "c"])
@@ -210,6 +212,8 @@ def gen_config(rng, sp, profile):
             ro[field] = value
         if want("sc", 0.5):
             put("sc", rng.choice([0, 1, 2, 3, 5, 8]), "--sample-count", "DIVAN_SAMPLE_COUNT", "sample_count")
+        if single == "ss_wide":
+            put("ss", rng.choice([65536, 4096]), "--sample-size", "DIVAN_SAMPLE_SIZE", "sample_size", only=rng.choice(["cli", "env", "builder"]))
         if want("ss", 0.5):
             put("ss", rng.choice([1, 2, 3, 4]), "--sample-size", "DIVAN_SAMPLE_SIZE", "sample_size")
         if want("th", 0.4):
